@@ -12,6 +12,9 @@ open Lean MW MW.Staking MW.Chain Driver
 structure DState where
   world : Option World := none
   build : Build := .osmosis
+  treasury : Option MW.Treasury.TState := none
+  tself : String := ""
+  tprefix : String := "osmo"
 
 def parseFaults (j : Json) : Faults :=
   let ft := match optField j "fail_transfer" with
@@ -158,6 +161,34 @@ def handlePure (req : Json) : Json :=
 def handle (st : DState) (req : Json) : DState × Json :=
   match getStr req "op" with
   | "pure" => (st, handlePure req)
+  | "tboot" =>
+    let self := getStr req "self"
+    let chainPrefix := getStr req "chain_prefix"
+    let env : Env := { timeNs := getNatD req "time", height := getNatD req "height", txIndex := some 0,
+                       contract := self, chainPrefix }
+    let msgJ := (req.getObjVal? "msg").toOption.getD .null
+    match parseTInstantiate msgJ with
+    | .error _ => ({ st with treasury := none }, Json.mkObj [("result", jErr .parse)])
+    | .ok m =>
+      match MW.Treasury.instantiate env { sender := getStr req "sender", funds := [] } m with
+      | .error e => ({ st with treasury := none }, Json.mkObj [("result", jErr e)])
+      | .ok (t, msgs) =>
+        ({ st with treasury := some t, tself := self, tprefix := chainPrefix },
+         Json.mkObj [("result", jResult .osmosis (.ok msgs)), ("dump", dumpTreasury t)])
+  | "texec" =>
+    match st.treasury with
+    | none => (st, Json.mkObj [("bad", "tboot first")])
+    | some t =>
+      let env : Env := { timeNs := getNatD req "time", height := getNatD req "height", txIndex := some 0,
+                         contract := st.tself, chainPrefix := st.tprefix }
+      let msgJ := (req.getObjVal? "msg").toOption.getD .null
+      match parseTExec msgJ with
+      | .error _ => (st, Json.mkObj [("result", jErr .parse), ("dump", dumpTreasury t)])
+      | .ok m =>
+        match MW.Treasury.execute t env { sender := getStr req "sender", funds := [] } m with
+        | .error e => (st, Json.mkObj [("result", jErr e), ("dump", dumpTreasury t)])
+        | .ok (t', msgs) =>
+          ({ st with treasury := some t' }, Json.mkObj [("result", jResult .osmosis (.ok msgs)), ("dump", dumpTreasury t')])
   | "boot" =>
     let build := if getStr req "build" == "miniwasm" then Build.miniwasm else Build.osmosis
     let self := getStr req "self"
